@@ -435,7 +435,7 @@ pub fn walk_strategy(dim: usize, len: usize) -> BoxedStrategy<Case> {
             dim,
             robust,
             salt,
-            start: Start { points: simplex.clone(), guarantee: g, validation: None, repair: None, check: None },
+            start: Start { points: simplex.clone(), guarantee: g, validation: None, repair: None, check: None, scale_pow: 0 },
             ops,
             exhaustive_handles: true,
         })
